@@ -99,3 +99,14 @@
         crate::vcover!(res.is_ok());
         core::mem::forget(res);
     }
+
+    /// scaffolding: an LZMAReader whose decoder storage is zeroed (never driven) around a given range decoder
+    pub(crate) fn mk_reader_zeroed<R>(rc: RangeDecoder<R>) -> LZMAReader<R> {
+        unsafe {
+            let mut m = core::mem::MaybeUninit::<LZMAReader<R>>::zeroed();
+            let p = m.as_mut_ptr();
+            core::ptr::addr_of_mut!((*p).rc).write(rc);
+            core::ptr::addr_of_mut!((*p).lz).write(LZDecoder::default());
+            m.assume_init()
+        }
+    }
